@@ -82,7 +82,19 @@ def scenario(draw) -> Dict[str, Any]:
         main['gap'] = draw(st.one_of(st.sampled_from([0, 1, 1000, 1999, 2000, 2001, 4000, 9999, 10001, 29000, 31000, 60000]),
                                      st.integers(0, 1200000)))
     events.append(main)
-    if main['port'] != 5353 and draw(st.integers(0, 2)) == 0:
+    has_qu = any(qq[4] for qq in main['qs'])
+    if main['port'] == 5353 and has_qu and not main['probe'] and draw(st.integers(0, 2)) == 0:
+        # the same bytes from another host (two browsers started together ask the same id-0 QU question): the second copy passes
+        # the duplicate guard and is a query of its own, judged at its own arrival time - e.g. on the other side of the quarter-TTL
+        # moment of a record
+        twin = {k: v for k, v in main.items() if k not in ('main', 'quarter', 'delta', 'gap')}
+        twin.update({'twin': True, 'gap': draw(st.sampled_from([0, 1, 3, 200, 700, 999, 1001, 1500])), 'client': (main['client'] + 1) % 3})
+        if 'quarter' in main and draw(st.booleans()):
+            # first copy just before the quarter-TTL moment of the chosen record, second copy just after it
+            main['delta'] = draw(st.sampled_from([-2, -1, -1, -500]))
+            twin['gap'] = draw(st.sampled_from([3, 3, 600, 998]))
+        events.append(twin)
+    elif main['port'] != 5353 and draw(st.integers(0, 2)) == 0:
         # a second stub resolver sends the very same bytes (ids are often 0, or collide) from another address or port, less than
         # or about a second later: it is that resolver's own query, not a link-layer duplicate
         twin = {k: v for k, v in main.items() if k not in ('main', 'quarter', 'delta', 'gap')}
@@ -182,23 +194,12 @@ def known_signature(case: Any, v: Violation):
     return None
 
 
-def check(case: Dict[str, Any]) -> Dict[str, Any]:
-    case = dict(case, exclude_f12=True)
-    run = respsim.RespRun(case)
-    run.execute()
-    if run.errors:
-        raise Violation('exception reached the event loop: ' + str(run.errors[0].get('exception')), run.errors[:2],
-                        tag='loop-exception')
-    check_multicast_format(run)
-    q = [x for x in run.queries if x['ev'].get('main')][0]
+def _judge(run: respsim.RespRun, case: Dict[str, Any], q: Dict[str, Any], g_cap: Any, skip_dst: Any) -> Dict[str, Any]:
+    """routing rules for one query; sends with a sequence number >= g_cap and unicasts to skip_dst belong to another query"""
     exp, dont_care, allowed, _ = q['exp']
     t_q = q['t_ms']
-    after = [s for s in run.sends if s['g'] > q['g'] and s['t_ms'] <= t_q + 1500]
-    unicast = [s for s in after if not s['mc']]
-    twins = [x for x in run.queries if x['ev'].get('twin')]
-    if twins:
-        check_twin(run, twins[0], q)
-        unicast = [s for s in unicast if (s['dst'], s['port']) != (twins[0]['src'][0], twins[0]['src'][1])]
+    after = [s for s in run.sends if s['g'] > q['g'] and s['t_ms'] <= t_q + 1500 and (g_cap is None or s['g'] < g_cap)]
+    unicast = [s for s in after if not s['mc'] and (skip_dst is None or (s['dst'], s['port']) != skip_dst)]
     mresp = [s for s in after if s['mc'] and s.get('response')]
     det: Dict[str, Any] = {'questions': q['questions'], 'known': q['known'], 'probe': q['probe'], 'src': q['src'],
                            'sock': q['sock'], 'unicast': [(s['dst'], s['port'], s['sock'], [a[0] for a in s.get('an', [])]) for s in unicast],
@@ -209,7 +210,7 @@ def check(case: Dict[str, Any]) -> Dict[str, Any]:
         (asked_qu if qu else asked_qm).update(i for i in e if i in exp)
 
     v6_host = case['socks'] in ('v6', 'dual')
-    f12_excluded = run.excluded_f12
+    f12_excluded = 0
 
     def recency(ident: Tuple) -> Any:
         nonlocal f12_excluded
@@ -295,6 +296,32 @@ def check(case: Dict[str, Any]) -> Dict[str, Any]:
         if quiet:
             raise Violation('QU question for a recently-multicast record was answered by multicast as well',
                             dict(det, records=quiet), tag='qu-multicast-extra')
+    return {'exp': exp, 'rec': rec, 'asked_qu': asked_qu, 'asked_qm': asked_qm, 'f12': f12_excluded, 'det': det}
+
+
+def check(case: Dict[str, Any]) -> Dict[str, Any]:
+    case = dict(case, exclude_f12=True)
+    run = respsim.RespRun(case)
+    run.execute()
+    if run.errors:
+        raise Violation('exception reached the event loop: ' + str(run.errors[0].get('exception')), run.errors[:2],
+                        tag='loop-exception')
+    check_multicast_format(run)
+    q = [x for x in run.queries if x['ev'].get('main')][0]
+    twins = [x for x in run.queries if x['ev'].get('twin')]
+    if twins and q['legacy']:
+        check_twin(run, twins[0], q)
+        res = _judge(run, case, q, None, (twins[0]['src'][0], twins[0]['src'][1]))
+    elif twins:
+        # the same bytes from another host on port 5353 (a QU question lets them through the duplicate guard): both are judged,
+        # each at its own arrival time
+        res = _judge(run, case, q, twins[0]['g'], (twins[0]['src'][0], twins[0]['src'][1]))
+        res2 = _judge(run, case, twins[0], None, (q['src'][0], q['src'][1]))
+        res['f12'] += res2['f12']
+    else:
+        res = _judge(run, case, q, None, None)
+    exp, rec, asked_qu, asked_qm, det = res['exp'], res['rec'], res['asked_qu'], res['asked_qm'], res['det']
+    f12_excluded = run.excluded_f12 + res['f12']
     # classes
     n_socks = len(run.host.endpoints)
     mixed = bool(asked_qu and asked_qm)
@@ -309,7 +336,9 @@ def check(case: Dict[str, Any]) -> Dict[str, Any]:
     if exp:
         classes.append('has-expected-answers')
     if twins:
-        classes.append('same-bytes-from-a-second-legacy-source')
+        classes.append('same-bytes-from-a-second-legacy-source' if q['legacy'] else 'same-QU-query-bytes-from-a-second-host')
+        if not q['legacy'] and any(v is not None and res2['rec'].get(i) is not None and v != res2['rec'][i] for i, v in rec.items()):
+            classes.append('quarter-TTL-moment-between-the-two-copies')
     if any(v is None for v in rec.values()):
         classes.append('ptr-floor-dont-care')
     if f12_excluded:
